@@ -587,6 +587,11 @@ theorem encParts_copy (p : Packet) (hc : wf .client p = true) (hb : wf .broker (
     simp [toBroker, encParts, encConnect, levelByte]
   case publish dup qos retain topic pkid payload props =>
     simp only [wf, Bool.and_eq_true, decide_eq_true_eq] at hc
+    have hpn : props = none := by
+      cases props with
+      | none => rfl
+      | some _ => simp at hc
+    subst hpn
     simp [toBroker, encParts, encPublish, publishLen_copy qos topic pkid payload hc.1.1.2]
   case suback pkid props cs =>
     simp only [wf, Bool.and_eq_true, decide_eq_true_eq] at hc
